@@ -5,7 +5,7 @@
    are parsed by the standard library, which enters as the oracle [orc] (every theorem holds for every
    oracle); times and unmarshalers are not modelled (see DESIGN). *)
 From Coq Require Import List Bool ZArith String.
-From Echo Require Import Base.Sx Bind.ParseNum Bind.ValueBinder Bind.ValueBinderProofs Gen.Src_binder.
+From Echo Require Import Base.Sx Bind.ParseNum Bind.ValueBinder Bind.ValueBinderProofs Bind.SplitProofs Gen.Src_binder.
 Import ListNotations.
 Open Scope Z_scope.
 
@@ -86,6 +86,12 @@ Theorem C08_oracle_struct_exact : forall orc k v dest x f b w, find_kind bind_ki
   bind_kind orc k v dest = Some (x, false) -> orc f b (match v with [] => zero_text f | _ => v end) = Some x.
 Proof. exact bind_kind_oracle. Qed.
 Print Assumptions C08_oracle_struct_exact.
+
+(* delimiter-split binding (BindWithDelimiter): the values are the pieces of strings.Split - joined by the delimiter
+   they give back the text, nothing is lost or invented - and are then bound like the values of a slice call *)
+Theorem C08_delimiter_faithful : forall d s, d <> [] -> join d (split d s) = s.
+Proof. exact join_split. Qed.
+Print Assumptions C08_delimiter_faithful.
 
 Example C08_example :
   parse_int 8 (lit "128") = None /\ parse_int 8 (lit "-128") = Some (-128) /\ parse_int 8 (lit "+127") = Some 127 /\
